@@ -587,6 +587,41 @@ macro_rules! hand_schema {
     };
 }
 
+// ---- byte strings offered through serialize_bytes (serde_bytes) to a union holding both a fixed and bytes
+#[derive(Debug, Serialize, Deserialize, Clone, PartialEq)]
+pub struct Blobs {
+    #[serde(with = "serde_bytes")]
+    payload: Vec<u8>,
+    seq: i64,
+    #[serde(with = "serde_bytes")]
+    raw: Vec<u8>,
+}
+hand_schema!(Blobs, r#"{"type":"record","name":"Blobs","fields":[{"name":"payload","type":["null",{"type":"fixed","name":"Quad","size":4},"bytes"]},{"name":"seq","type":"long"},{"name":"raw","type":"bytes"}]}"#);
+impl Gen for Blobs {
+    fn gen_value(r: &mut Rng, _d: u32) -> Self {
+        let n = [0usize, 3, 4, 4, 5, 16][r.below(6) as usize];
+        Blobs {
+            payload: (0..n).map(|_| r.next() as u8).collect(),
+            seq: r.i64(),
+            raw: (0..r.len()).map(|_| r.next() as u8).collect(),
+        }
+    }
+}
+/// the same with the bytes branch first
+#[derive(Debug, Serialize, Deserialize, Clone, PartialEq)]
+pub struct Blobs2 {
+    #[serde(with = "serde_bytes")]
+    payload: Vec<u8>,
+    seq: i64,
+}
+hand_schema!(Blobs2, r#"{"type":"record","name":"Blobs2","fields":[{"name":"payload","type":["bytes","null",{"type":"fixed","name":"Quad","size":4}]},{"name":"seq","type":"long"}]}"#);
+impl Gen for Blobs2 {
+    fn gen_value(r: &mut Rng, _d: u32) -> Self {
+        let n = [0usize, 3, 4, 4, 5][r.below(5) as usize];
+        Blobs2 { payload: (0..n).map(|_| r.next() as u8).collect(), seq: r.i64() }
+    }
+}
+
 /// fully reversed
 #[derive(Debug, Serialize, Deserialize, Clone, PartialEq)]
 pub struct Reversed {
@@ -908,6 +943,8 @@ pub fn serde_case(a: &[Sexp]) -> Sexp {
         "rename-rules" => run_type::<RenameRules>(seed, bs),
         "kebab-units" => run_type::<KebabUnits>(seed, bs),
         "with-rules" => run_type::<WithRules>(seed, bs),
+        "blobs" => run_type::<Blobs>(seed, bs),
+        "blobs2" => run_type::<Blobs2>(seed, bs),
         "reversed" => run_type::<Reversed>(seed, bs),
         "reversed-defaults" => run_type::<ReversedDefaults>(seed, bs),
         "interleaved" => run_type::<Interleaved>(seed, bs),
